@@ -176,6 +176,45 @@ var _ = time.Now
 
 // oneShot decides pc ∧ extra with fresh non-incremental solver processes (z3, then z3-new, then
 // cvc5): the incremental core is much weaker on floating-point conversions.
+// SecondOpinion: how many discharged assertions per (job, label) are re-decided by z3-new and cvc5.
+var SecondOpinion = 0
+
+func (e *Explorer) script(extra string) string {
+	var sb strings.Builder
+	for _, d := range e.decls {
+		sb.WriteString(d + "\n")
+	}
+	for _, c := range e.pc {
+		sb.WriteString("(assert " + c + ")\n")
+	}
+	if extra != "" && extra != "true" {
+		sb.WriteString("(assert " + extra + ")\n")
+	}
+	sb.WriteString("(check-sat)\n")
+	return sb.String()
+}
+
+func (e *Explorer) oneShotWith(cmdline []string, extra string) string {
+	text := e.script(extra)
+	if cmdline[0] == "cvc5" {
+		text = "(set-logic ALL)\n" + text
+	}
+	cmd := exec.Command(cmdline[0], cmdline[1:]...)
+	cmd.Stdin = strings.NewReader(text)
+	out, _ := cmd.Output()
+	ans := "unknown"
+	for _, l := range strings.Split(string(out), "\n") {
+		l = strings.TrimSpace(l)
+		if strings.HasPrefix(l, "(error") {
+			return "unknown"
+		}
+		if l == "sat" || l == "unsat" {
+			ans = l
+		}
+	}
+	return ans
+}
+
 func (e *Explorer) oneShot(extra string) string {
 	var sb strings.Builder
 	for _, d := range e.decls {
